@@ -2,6 +2,10 @@
 HOOK_COMMITS = []
 
 claim("C07", "proof",
+      "Translator tie: the rule ladders of Tree::unary / Tree::binary (tree.cpp) are re-read on every run into a rule table "
+      "(Gen/BuildRules_gen.v) which, run by the interpreter of Tree/BuildRules.v, is proved equal to the model's mk_unary / "
+      "mk_binary for every opcode, fuel, arena and number type (C07_build_rules_from_source; 9 of 11 source mutations break it, "
+      "the other two are behaviour-preserving).  "
       "Machine-checked theorems (Coq) that every construction-time simplification, remap, apply and flatten "
       "yields a node denoting the mathematical definition, for all arenas / opcodes / rule branches and every number "
       "type satisfying the stated algebraic laws (the reals do); that Tree::optimized (affine collection, commutative "
@@ -78,7 +82,12 @@ claim("C03", "proof",
       "DESIGN.md section 6, C03")
 
 claim("C04", "proof",
-      "PARTIAL.  Coq theorems: (a) pruning - under sound interval evaluation (C02) a cell classified EMPTY / FILLED contains no "
+      "PARTIAL.  Adaptive octrees (module AdaptiveDCSep, Render/OctTreeSep*.v): besides 'no holes' and 'triangles only at sign "
+      "changes', the converse is proved for the minimal edges on the central line of a branching cell (the edge recursion "
+      "reaches every quadruple of leaves around a minimal edge; a sign change forces four ambiguous leaves and yields the "
+      "explicit quad, in the mesh), with the winding decided by the inside end and crossing parity along paths of minimal "
+      "edges; minimal edges inside a face shared by two children are NOT proved, so the winding statement on adaptive octrees "
+      "stays with the oracle.  Coq theorems: (a) pruning - under sound interval evaluation (C02) a cell classified EMPTY / FILLED contains no "
       "zero of the field and every point of it has the classified sign, so all surface lies in AMBIGUOUS cells (also through a "
       "volume tree); (b) dual contouring on a uniform grid (the executable model of Dual<3>::walk + DCMesher::load over the "
       "run-time patch tables): the mesh is exactly the boundary of the inside lattice set - two triangles per lattice edge whose "
@@ -145,6 +154,9 @@ claim("C10", "proof",
       "DESIGN.md section 6, C10")
 
 claim("C05", "proof",
+      "Translator tie: the keep functions that IntervalEvaluator::push and ArrayEvaluator::valueAndPush hand to Tape::push are "
+      "re-read from eval_interval.cpp / eval_array.cpp on every run (Gen/KeepFns_gen.v) and proved equal to the model's "
+      "keep_interval / keep_point (C05_keep_functions_from_source).  "
       "Coq theorems about the line-by-line model of Tape::push (parametric in the number type, so bit-identity holds "
       "for binary32); tie: every push the implementation performs (nested interval pushes, point pushes) is replayed "
       "through the extracted model on the implementation's own interval bounds / slot values and must yield the identical "
